@@ -152,3 +152,28 @@ ADDENDA2 = {
 }
 for _k, _t in ADDENDA2.items():
     CLAIMS[_k]["text"] = CLAIMS[_k]["text"] + " " + _t
+
+# Clauses added after the third and fourth rounds (DESIGN.md §3, "Rules added after the third and fourth rounds")
+ADDENDA3 = {
+ "C01": "Also: entries are created only below directories and never over a directory (R03.1/R03.5 analyses); the in-memory listing compares child names with constants only; Chmod/Stat/Rename/reads never store a modification time; a name through a regular file is not told apart from a missing one (known finding).",
+ "C02": "Also: OpenFile constructs a record only where the name was not found; a Grow amount equals target minus current length on every path (linear forms); positioned methods and Truncate never store the offset; write methods never keep the caller's buffer; a failed write-back is not undone (known finding).",
+ "C03": "Also: the generic Sub view joins with path.Join and refuses to remove its own root; hackpadfs.RemoveAll of an ancestor of a mount point is not refused (known finding).",
+ "C04": "Also: a cleaned or joined value of an unvalidated name is never handed to a callee whose own ValidPath gate would then see only the cleaned value.",
+ "C05": "Also: write-back errors name the record written; no error outside MkdirAll/RemoveAll names path.Dir of a name; errors of recursive calls on other names are re-wrapped; prefixes computed with TrimSuffix are cut only after the 'is the directory itself' case.",
+ "C07": "Also: prefix tests against a view's root are on element boundaries; no helper resolves a route twice.",
+ "C08": "Also: OpenFile falls back to Open only for flag == FlagReadOnly; no helper takes one Read or a short count for the whole content; the fallback Sub view joins with path.Join.",
+ "C09": "Also: no case-insensitive admission of a prefix that is then cut case-sensitively; Sub never stores the root \".\".",
+ "C10": "Also: the fill does not stop at a short count; the never-serve mark of an unremovable partial file is dropped only after a successful Remove; the fill runs once per freshly opened handle; the directory handle can be rewound.",
+ "C11": "Also: the never-serve mark discipline (R11.7) and fill-once-per-handle (R11.8).",
+ "C12": "Also: read loops keep the bytes that arrive with io.EOF; every entry is created, written or handed to a writer before success is returned; the default destination copies written bytes.",
+ "C13": "Also: io.ErrUnexpectedEOF is never turned into io.EOF or success.",
+ "C14": "Also: run-once evaluations memoise their error in a field; ErrNotExist is answered only where the operation's own error is nil; a value that came with a tolerated error is not kept in a collection.",
+ "C15": "Also (aliases of C19/C14 analyses): no lock-taking call under a blob mutex, views share their parent's mutex, no nil entry after a racing Remove.",
+ "C16": "Also: the mount table matches names on element boundaries.",
+ "C17": "Also: every error of the OS-backed handle is the inner *os.File's.",
+ "C18": "Also: the abort checker answers 'not aborted' only behind its look at the context.",
+ "C19": "Also: no Blob method returns a package-level blob; the typed-array blob repeats mutations on its cache with its own parameters.",
+ "C20": "Also: by-name listings are not sorted before assertions; errors.Is is applied in one direction; subset assertions between two observed listings have a converse or a distinctness assertion.",
+}
+for _k, _t in ADDENDA3.items():
+    CLAIMS[_k]["text"] = CLAIMS[_k]["text"] + " " + _t
